@@ -194,7 +194,20 @@ class Interp:
             if nm is not None:
                 self.calls[nm] = self.calls.get(nm, 0) + 1
                 if nm in self.kernels and anysym:
-                    return list(self.kernels[nm](*invals))
+                    outs = list(self.kernels[nm](*invals))
+                    fixed = []
+                    for o, v in zip(outs, e.outvars):
+                        o = to_obj(o)
+                        tgt = tuple(v.aval.shape)
+                        # a kernel stand-in may return an output broadcast over batch axes on
+                        # which it does not depend: collapse axes whose slices are identical
+                        while o.shape != tgt and o.ndim > len(tgt):
+                            first = o[0]
+                            if not all(all(a is b for a, b in zip(o[k].reshape(-1), first.reshape(-1))) for k in range(1, o.shape[0])):
+                                raise NotEncodable(f"kernel {nm}: output shape {o.shape} != {tgt}")
+                            o = first
+                        fixed.append(o)
+                    return fixed
             if hasattr(sub, "consts"):
                 return self.eval(sub.jaxpr, sub.consts, *invals)
             return self.eval(sub, (), *invals)
